@@ -260,9 +260,12 @@ def sphinx_project(R):
     files["z_obs3.md"] = "# Obs3\n\n```{eval-rst}\n.. include:: shared.inc\n   :heading-offset: 1\n```\n\n![i](pic.png) [d](d00.md)\n"
     toc = ["# Index", "", "```{toctree}"] + sorted(n[:-3] for n in files if n.endswith(".md")) + ["```", ""]
     files["index.md"] = "\n".join(toc)
-    conf = {"myst_enable_extensions": ["dollarmath", "amsmath", "substitution", "attrs_inline"], "myst_heading_anchors": 3, "myst_substitutions": {"key": "GLOBAL"},
+    conf = {"myst_enable_extensions": ["dollarmath", "amsmath", "substitution", "attrs_inline", "strikethrough"], "myst_heading_anchors": 3, "myst_substitutions": {"key": "GLOBAL"},
             "myst_url_schemes": {"http": None, "https": None, "wiki": {"url": "https://w.org/{{path}}", "classes": ["wiki"]}}}
-    files["a_leak7.md"] = "# Leak7\n\n[A](wiki:A){.big} [B](wiki:B){.huge #b}\n"
+    # the same warnings (same text) in a leaker and in the observers: every document reports its own
+    files["a_leak7.md"] = "# Leak7\n\n[A](wiki:A){.big} [B](wiki:B){.huge #b}\n\n~~gone~~ {nosuchrole}`x`\n\n#### skipped level\n\n```{nosuchdirective}\n```\n"
+    files["z_obs1.md"] += "\n~~gone~~ {nosuchrole}`x`\n\n#### skipped level\n\n```{nosuchdirective}\n```\n"
+    files["z_obs3.md"] += "\n~~gone~~ {nosuchrole}`x`\n"
     files["d00.md"] += "\n[W](wiki:W0){.zero}\n"
     files["z_obs2.md"] += "\n[W](wiki:W) [X](wiki:X){.own}\n"
     for nm in names[1:]:
